@@ -266,11 +266,13 @@ func (r *Resolver) ResolveUnionEdges(ctx context.Context, req *Request, edges []
 
 	for _, evaluation := range evaluations {
 		pool.Go(func() error {
+			// stamped with the start of the evaluation: a write may land while it runs on the older data
+			resolveStart := time.Now()
 			res, err := r.ResolveEdge(ctx, req, evaluation.edge, visited)
 			// A negative answer computed under the request-wide visited filter depends on which
 			// usersets earlier branches already marked visited; it is not the edge's answer in general.
 			if err == nil && ctx.Err() == nil && (visited == nil || res.GetAllowed()) {
-				entry := &ResponseCacheEntry{Res: res, LastModified: time.Now()}
+				entry := &ResponseCacheEntry{Res: res, LastModified: resolveStart}
 				r.cache.Set(evaluation.id, entry, r.cacheTTL)
 			}
 
@@ -552,6 +554,9 @@ func (r *Resolver) ResolveRecursive(ctx context.Context, req *Request, edge *aut
 		var err error
 		var res *Response
 
+		// stamped with the start of the evaluation: a write may land while it runs on the older data
+		resolveStart := time.Now()
+
 		switch edge.GetEdgeType() {
 		case authzGraph.DirectEdge:
 			res, err = r.resolveRecursiveUserset(ctx, req, edge, visited, canApplyOptimization)
@@ -562,7 +567,7 @@ func (r *Resolver) ResolveRecursive(ctx context.Context, req *Request, edge *aut
 		}
 
 		if err == nil && ctx.Err() == nil {
-			entry := &ResponseCacheEntry{Res: res, LastModified: time.Now()}
+			entry := &ResponseCacheEntry{Res: res, LastModified: resolveStart}
 			r.cache.Set(cacheKey, entry, r.cacheTTL)
 		}
 		concurrency.TrySendThroughChannel(ctx, ResponseMsg{Res: res, Err: err}, out)
